@@ -88,6 +88,8 @@ CoefClause == IF C.method = "tikhonov" /\ ABest >= 16 /\ ~TikOK(3, ABest, CoefT)
 PredClause == IF C.Xn # <<>> /\ ~Within(FMatMul(Q4(C.Xn), CoefT), C.predn, PB(m, Q4(C.Xn), CoefT) + 16) THEN "predict-differs-from-X-times-coefficients" ELSE "ok"
 First(s) == LET bad == {i \in 1..Len(s) : s[i] # "ok"} IN IF bad = {} THEN "ok" ELSE s[SetMin(bad)]
 Verdict == IF C.raised THEN <<"rejected", "valid-fit-raised">>
+           ELSE IF Len(C.cv) # NA THEN <<"rejected", "number-of-cv-values-differs-from-the-alpha-grid">>
+           ELSE IF C.best_idx \notin 1..NA THEN <<"rejected", "chosen-alpha-is-not-a-grid-value">>
            ELSE IF FMaxAbs(C.coef) > 100000 * S \/ \E f \in 1..2, i \in 1..NA : FMaxAbs(C.W[f][i]) > 400 * S THEN
                 (IF FMaxAbs(C.coef) > 100000 * S THEN <<"rejected", "coefficients-unbounded">> ELSE <<"inconclusive", "magnitude">>)
            ELSE LET w == WitnessClause IN
